@@ -4,7 +4,7 @@
    canonical term, the usability class of the codec on every reflected type. *)
 From Coq Require Import String List NArith ZArith Bool.
 From J5V.lib Require Import Outcome Corr.
-From J5V.model Require Import ReflectDesc ReflectSchema Reflect ReflectOwn ReflectSpec.
+From J5V.model Require Import ReflectDesc ReflectSchema Reflect ReflectOwn ReflectSpec ReflectNames.
 Import ListNotations.
 Local Open Scope bool_scope.
 
@@ -136,8 +136,8 @@ Definition entry_matches (st : sset) (ke : ref * option root) : bool :=
 
 (* The model the real code is compared with is the reader WITH the ownership of schema names
    (ReflectOwn.v: the code since fix 0e6056c); the schema set is the first component of its state. *)
-Definition reflect_c (D : desc) (fs : list filed) : outcome sset := omap fst (o_reflect D fs).
-Definition cache_c (D : desc) (s : ost) (m : msgd) : ost * outcome root := o_cache_schema D (size D) s m.
+Definition reflect_c (D : desc) (fs : list filed) : outcome sset := omap fst (ReflectNames.o_reflect_checked D fs).
+Definition cache_c (D : desc) (s : ost) (m : msgd) : ost * outcome root := ReflectNames.o_cache_schema_checked D (size D) s m.
 Definition fresh_c (D : desc) (m : msgd) : sset * outcome root :=
   let '(s, o) := cache_c D ([], []) m in (fst s, o).
 
